@@ -27,11 +27,13 @@ in-flight map / heap; any schedule) plus `msg.pri`, heap keys and the scan as `P
   `popInFlightMessage` and `removeFromInFlightPQ`; `no_stale_exit_when_quiescent`: with no answer in that window every
   scan step succeeds. What is NOT claimed: that such a scan is repeated at once (the 25 % dirty loop decides; a due entry
   behind the stale one waits for the next scan round — wall-clock one `QueueScanInterval`).
-* `projects_to_untimed`, `ownership_transports` — every timed schedule is a `ChanMicro` schedule: `MInv` and with
-  it all theorems of `Nsq.Props.C02Micro` hold for the timed model.
+* `projects_to_untimed` (per step: 0, 1 or 2 untimed steps), `ownership_transports` (`MInv` of the untimed component
+  along every timed schedule), `reachable_transports` (the untimed component is `C02Micro.Reachable`, the hypothesis of
+  every `Nsq.Props.C02Micro` theorem — so they apply to the timed model as stated). Built by `./check C04`.
 -/
 import Nsq.Proofs.ChanMicroT
 import Nsq.Proofs.ChanMicroTF
+import Nsq.Props.C02Micro
 namespace Nsq.Props.C04Micro
 open Nsq.Model.ChanMicro Nsq.Model.ChanMicroT Nsq.Proofs.ChanMicro Nsq.Proofs.ChanMicroT
 
@@ -54,6 +56,13 @@ theorem projects_to_untimed (fixed : Bool) (s : TS) (op : TOp) :
 /-- … so the invariant of `ChanMicro` (and with it `C02Micro`'s ownership theorems) holds along timed schedules -/
 theorem ownership_transports (fixed : Bool) (ops : List TOp) : MInv (runT fixed {} ops).ms :=
   runT_minv fixed {} minv_init ops
+
+/-- … and the untimed component of every state of a timed schedule from the empty channel is `C02Micro.Reachable`
+(the hypothesis of every `Nsq.Props.C02Micro` theorem): the whole timed schedule projects to ONE untimed schedule,
+the concatenation of the per-step projections — so those theorems apply to it as stated (round 11, claim audit 15) -/
+theorem reachable_transports (fixed : Bool) (ops : List TOp) : Nsq.Props.C02Micro.Reachable (runT fixed {} ops).ms := by
+  obtain ⟨l, h⟩ := runT_reaches fixed {} ops
+  exact ⟨l, h⟩
 
 /-- "a scan that finds nothing due (`PeekAndShift(t)` = nil) leaves no in-flight message with deadline `≤ t`" -/
 def ScanComplete (fixed : Bool) : Prop :=
@@ -95,6 +104,8 @@ example : (runT false {} a3Ops).tlog.filter (fun e => match e with | .timedOut .
 example : ∃ d, lastStamp [TEv.stamp 1 10] 1 = some d ∧ d ≤ 1000 :=
   never_early_micro_whole false [.plain (.put 1), .delMapPush 1 1 0 10, .plain (.heapPush 1), .scanPop 1 1000] [] _ 1 1000 (by decide)
 example : MInv (runT false {} a3Ops).ms := ownership_transports false a3Ops
+example : ∀ id, cnt (runT false {} a3Ops).ms id ≤ 1 :=
+  fun id => Nsq.Props.C02Micro.single_location (reachable_transports false a3Ops) id
 
 
 /-! ## the F48 shape (committed): completeness for EVERY schedule (round 9; audit A3, A11) -/
